@@ -348,7 +348,6 @@ impl<L: ChainListener> ChainTracker<L> {
                     supplied_prev_headers.0.block_hash().to_string()
                 ));
             }
-            self.headers.pop_front();
         };
 
         let mut prev_headers = supplied_prev_headers;
@@ -380,6 +379,7 @@ impl<L: ChainListener> ChainTracker<L> {
         };
 
         info!("removed block {}: {}", self.height, &self.tip.0.block_hash());
+        self.headers.pop_front();
         mem::swap(&mut self.tip, &mut prev_headers);
         self.height -= 1;
         Ok(prev_headers.0)
